@@ -5,6 +5,16 @@ package main
 // is zero. They must be reported on every run; reports located in them are
 // then removed from the verdict. Never written to disk.
 var controlSources = map[string]string{
+	"filter/zz_verif_controls.go": `package filter
+
+// C08.7: a slice expression whose low bound the compiler cannot prove
+func zzVerifControlExcerpt(src string, off int) string {
+	chars := []rune(src)
+	return string(chars[off:])
+}
+
+var _ = zzVerifControlExcerpt
+`,
 	"actions/zz_verif_controls.go": `package actions
 
 import (
